@@ -247,18 +247,18 @@ def label_lists(draw, n, cons):
         if kind == "mixed":
             k = draw(st.sampled_from(["simple", "punct", "punct", "keyword"]))
         if k == "simple":
-            raw = draw(st.text(alphabet=_ALNUM, min_size=1, max_size=8))
+            raw = "".join(draw(st.lists(st.sampled_from(_ALNUM), min_size=1, max_size=8)))
         elif k == "keyword":
             raw = draw(st.sampled_from(_KEYWORDS))
         else:
-            raw = draw(st.text(alphabet=st.sampled_from(_PUNCT + _PUNCT + _ALNUM), min_size=1, max_size=12))
+            raw = "".join(draw(st.lists(st.sampled_from(_PUNCT + _PUNCT + _ALNUM), min_size=1, max_size=12)))
         out.append(_fit(raw, cons, i, seen))
     return out
 
 
 def simple_labels(n, prefix=""):
-    return st.lists(st.text(alphabet=_ALNUM[:52], min_size=1, max_size=4), min_size=n, max_size=n).map(
-        lambda xs: ["%s%s%d" % (prefix, x, i) for i, x in enumerate(xs)])
+    word = st.lists(st.sampled_from(_ALNUM[:52]), min_size=1, max_size=4).map("".join)
+    return st.lists(word, min_size=n, max_size=n).map(lambda xs: ["%s%s%d" % (prefix, x, i) for i, x in enumerate(xs)])
 
 
 # ---------------------------------------------------------------------------
